@@ -468,9 +468,12 @@ theorem catchFinish_good {m m2 : M} {r : Res} {f : Frame} (hv : m2.vs = m.vs) (h
       (by rw [hdc, hc]; simp) m.loadDepth m.restrictDestruct
     have h1 : restoreContext (ctxOf m) m5 = .ok m6 := h1
     simp only [catchFinish, h1]
+    have hE : ∀ (x : M), x.vs = List.replicate 1 Slot.val ++ m6.vs → x.cs = m6.cs → x.ctxs = m.ctxs → Ext m x :=
+      fun x a b c => Ext.mk' [Slot.val] [] (by rw [a, h2]; rfl) (by rw [b, h3]; rfl) c
     split
-    · exact raise_good _ (Ext.mk' [Slot.val] [] (by show List.replicate 1 Slot.val ++ m6.vs = _; rw [h2]; rfl)
-        (by show m6.cs = _; rw [h3]; rfl) rfl)
+    · split
+      · exact raise_good _ (hE _ rfl rfl rfl)
+      · exact raise_good _ (hE _ rfl rfl rfl)
     · have hvs : ({ pushVals 1 m6 with lastCatch := m6.catchValue, catchValue := CV.num 1 } : M).vs = Slot.val :: m.vs := by
         show List.replicate 1 Slot.val ++ m6.vs = _; rw [h2]; rfl
       simp only [afterCatch_cons hvs]
@@ -516,8 +519,10 @@ theorem depthCheck_spec {k : CallKind} {m1 mFull : M} (h : depthCheck k m1 = som
 theorem execOp_good_of {o : Op} (h : ∀ m, Good m (execCore o m)) (m : M) : Good m (execOp o m) := by
   unfold execOp
   split
-  · exact raise_good _ (tick_same m).toExt
-  · exact Good.of_same (tick_same m) (h _)
+  · exact h _
+  · split
+    · exact raise_good _ (tick_same m).toExt
+    · exact Good.of_same (tick_same m) (h _)
 
 mutual
 theorem exec_good : ∀ (p : Prog) (m : M), Good m (exec p m)
@@ -552,6 +557,22 @@ theorem execCore_good : ∀ (o : Op) (m : M), Good m (execCore o m)
       · exact raise_good _ (Same.rfl' m).toExt
     · exact ⟨rfl, rfl, rfl⟩
   | .call k nargs declared body, m => by
+    simp only [execCore]
+    split
+    · rename_i mFull hd
+      have e1 : Ext m (pushVals nargs m) := Ext.mk' (List.replicate nargs Slot.val) [] rfl rfl rfl
+      exact raise_good _ ((e1.trans (depthCheck_spec hd)).trans ⟨⟨[], rfl⟩, ⟨[], rfl⟩, rfl⟩)
+    · obtain ⟨ev, ex, fs, efl, ec⟩ := enterCall_spec k declared (pushVals nargs m)
+      obtain ⟨m2, ha, h2v, h2c, h2x⟩ := adjustArgs_spec (nargs := nargs) (declared := declared)
+        (m1 := enterCall k declared (pushVals nargs m)) (rest := m.vs) ev
+      simp only [ha]
+      have hb := exec_good body m2
+      have hc' : m2.cs = fs ++ m.cs := h2c.trans ec
+      have hx' : m2.ctxs = m.ctxs := h2x.trans ex
+      split
+      · exact callFinish_good h2v efl hc' hx' (thenTick_good hb)
+      · exact callFinish_good h2v efl hc' hx' hb
+  | .cb k nargs declared body, m => by
     simp only [execCore]
     split
     · rename_i mFull hd
